@@ -175,6 +175,9 @@ type encLine struct {
 	SortedEsc []int              `json:"sortedesc"`
 	SortedRaw []int              `json:"sortedraw"`
 	Keys      [][]int            `json:"keys"`
+	IndP      []int              `json:"indp"`
+	IndI      []int              `json:"indi"`
+	IndB      []int              `json:"indb"`
 }
 
 // streams: the texts of the enc lines a worker has seen are concatenated (white space between them)
@@ -316,6 +319,20 @@ func (e *engine) checkEncLine(worker int, raw []byte) error {
 			if err != nil || fmt.Sprintf("%q", keys) != fmt.Sprintf("%q", wantKeys) {
 				e.rep.Report(viol("keys", "UnmarshalWithKeys does not report the member names in document order",
 					map[string]interface{}{"api": "UnmarshalWithKeys", "keys": keys, "want": wantKeys}))
+			}
+		}
+		// Encoder.SetIndent: prefix only, indent only, both
+		for _, c := range []struct {
+			prefix, indent string
+			want           []byte
+		}{{">", "", toBytes(ln.IndP)}, {"", "\t", toBytes(ln.IndI)}, {">>", " ", toBytes(ln.IndB)}} {
+			var ib bytes.Buffer
+			ienc := codec.NewEncoder(&ib)
+			ienc.SetEscapeHTML(false)
+			ienc.SetIndent(c.prefix, c.indent)
+			if err := ienc.Encode(x); err != nil || !bytes.Equal(bytes.TrimSuffix(ib.Bytes(), []byte("\n")), c.want) {
+				e.rep.Report(viol("codec-bytes", fmt.Sprintf("Encoder with SetIndent(%q, %q) differs from Indent(Enc(v), prefix, indent)", c.prefix, c.indent),
+					map[string]interface{}{"api": "Encoder.SetIndent", "got": ib.String(), "want": string(c.want)}))
 			}
 		}
 		// stream round trip: Encoder then Decoder
